@@ -36,6 +36,28 @@ func debugDump(w *World, what string, args []string) {
 			}
 		}
 		fmt.Println("proved", ok, "unproven", bad)
+	case "errprop":
+		r := NewReport("C18", "quick", "/tmp/dbg")
+		r.W = w
+		entries := mustFuncs(w, r, "sfnt.Read", "header.Read", "cff.Read", "opentype/gtab.Read", "opentype/gdef.Read", "head.Read", "maxp.Read", "os2.Read", "post.Read", "kern.Read", "cmap.Decode", "glyf.Decode", "name.Decode", "hmtx.Decode")
+		var mod []*ssaFn
+		for _, f := range srcFuncsReachable(w, entries) {
+			if isLibPkg(fnPkgPath(f)) {
+				mod = append(mod, f)
+			}
+		}
+		ef := &errflow{w: w, r: r, anyErr: "errprop"}
+		ef.computeIOErr()
+		ef.RunErrDrop(mod)
+		nok := 0
+		for _, o := range r.Obls {
+			if o.Status == StOK {
+				nok++
+				continue
+			}
+			fmt.Println(o.Status, o.Pos, o.Key, "::", o.Detail)
+		}
+		fmt.Println("ok", nok)
 	case "extremumlocal":
 		r := NewReport("C12", "quick", "/tmp/dbg")
 		r.W = w
